@@ -43,11 +43,11 @@ type xfrInCase struct {
 	// message holds nothing but the SOA.
 	Recs  []int
 	Ixfr  bool   // an IXFR request (answered in AXFR style, RFC 1995 4): Transfer.In takes its other loop
-	Fault string // "", "unsigned", "tamper", "wrongmode", "wrongsecret", "drop", "swap"
+	Fault string // "", "unsigned", "tamper", "wrongmode", "wrongsecret", "drop", "swap", "nomac" (a TSIG with error BADSIG / BADKEY and MAC Size 0)
 	At    int    // the envelope the fault applies to (drop / swap: At and At+1)
 }
 
-var xfrInFaults = []string{"unsigned", "tamper", "wrongmode", "wrongsecret", "drop", "swap"}
+var xfrInFaults = []string{"unsigned", "tamper", "wrongmode", "wrongsecret", "drop", "swap", "nomac"}
 
 func checkXfrIn(c xfrInCase) error {
 	if c.N < 1 || c.N > 6 || c.Unsigned < 0 || c.Unsigned >= c.N || c.Tamper < 0 || c.Tamper >= c.N || c.Fudge < 300 {
@@ -76,7 +76,7 @@ func checkXfrIn(c xfrInCase) error {
 	}
 	switch fault {
 	case "":
-	case "unsigned", "tamper", "wrongmode", "wrongsecret":
+	case "unsigned", "tamper", "wrongmode", "wrongsecret", "nomac":
 		if at < 0 || at >= c.N {
 			return nil
 		}
@@ -203,6 +203,13 @@ func checkXfrIn(c xfrInCase) error {
 				return pbt.Errf("infrastructure: reference signer: %v", err)
 			}
 			prev = mac
+			if fault == "nomac" && i == at {
+				// what anyone can put into the stream without the key: the records, and a TSIG that names
+				// the key, reports BADSIG / BADKEY and carries no MAC (RFC 8945 5.3.2: unauthenticated)
+				u := t
+				u.Error = 16 + c.ID&1
+				out = u.AppendTo(packed)
+			}
 		}
 		if fault == "tamper" && i == at {
 			out = append([]byte(nil), out...)
@@ -246,6 +253,8 @@ func checkXfrIn(c xfrInCase) error {
 					}
 				case "wrongsecret":
 					how = "was signed with another secret"
+				case "nomac":
+					how = "carries a TSIG with error BADSIG / BADKEY and no MAC at all"
 				case "drop":
 					how = fmt.Sprintf("covers the MAC of envelope %d, which was removed from the stream,", at+1)
 				case "swap":
